@@ -988,17 +988,27 @@ func ruleEXStrings(p *Prog, r *Reporter) {
 	}
 	str := func(sy, v string) string { return "datalog.SymbolTable.Str(" + sy + ", " + v + ".(datalog.String))" }
 	specs := []spec{
-		{"Prefix", func(l, rt, sy string) []string { return []string{"strings.HasPrefix(" + str(sy, l) + ", " + str(sy, rt) + ")"} }},
-		{"Suffix", func(l, rt, sy string) []string { return []string{"strings.HasSuffix(" + str(sy, l) + ", " + str(sy, rt) + ")"} }},
+		{"Prefix", func(l, rt, sy string) []string {
+			return []string{"strings.HasPrefix(" + str(sy, l) + ", " + str(sy, rt) + ")"}
+		}},
+		{"Suffix", func(l, rt, sy string) []string {
+			return []string{"strings.HasSuffix(" + str(sy, l) + ", " + str(sy, rt) + ")"}
+		}},
 		{"Regex", func(l, rt, sy string) []string {
 			return []string{"regexp.Regexp.Match(regexp.Compile(" + str(sy, rt) + ")#0, []byte(" + str(sy, l) + "))"}
 		}},
-		{"Contains", func(l, rt, sy string) []string { return []string{"strings.Contains(" + str(sy, l) + ", " + str(sy, rt) + ")"} }},
+		{"Contains", func(l, rt, sy string) []string {
+			return []string{"strings.Contains(" + str(sy, l) + ", " + str(sy, rt) + ")"}
+		}},
 		{"Add", func(l, rt, sy string) []string {
 			return []string{"datalog.SymbolTable.Insert(" + sy + ", (" + str(sy, l) + "+" + str(sy, rt) + "))"}
 		}},
-		{"Intersection", func(l, rt, sy string) []string { return []string{"datalog.Set.Intersect(" + l + ".(datalog.Set), " + rt + ".(datalog.Set))"} }},
-		{"Union", func(l, rt, sy string) []string { return []string{"datalog.Set.Union(" + l + ".(datalog.Set), " + rt + ".(datalog.Set))"} }},
+		{"Intersection", func(l, rt, sy string) []string {
+			return []string{"datalog.Set.Intersect(" + l + ".(datalog.Set), " + rt + ".(datalog.Set))"}
+		}},
+		{"Union", func(l, rt, sy string) []string {
+			return []string{"datalog.Set.Union(" + l + ".(datalog.Set), " + rt + ".(datalog.Set))"}
+		}},
 		{"Equal", func(l, rt, sy string) []string { return []string{l + ".Equal(" + rt + ")"} }},
 	}
 	for _, sp := range specs {
@@ -1122,13 +1132,17 @@ func (p *Prog) checkSetAlgebra(r *Reporter, st *types.Named) {
 					bad := false
 					for _, g := range guardsOf(b) {
 						c, isCall := g.cond.(*ssa.Call)
-						if !isCall || !isCallTo(&c.Call, "datalog.Set.has") || !rl.isElem(c.Call.Args[1]) {
+						if !isCall {
+							continue
+						}
+						mt, isM := p.memberTestOf(c)
+						if !isM || !rl.isElem(mt.elem) {
 							continue
 						}
 						switch {
-						case c.Call.Args[0] == ssa.Value(fn.Params[1]) && g.val:
+						case mt.coll == ssa.Value(fn.Params[1]) && g.val:
 							inOther = true
-						case c.Call.Args[0] == ssa.Value(fn.Params[1]) && !g.val:
+						case mt.coll == ssa.Value(fn.Params[1]) && !g.val:
 							bad = true
 						}
 					}
@@ -1185,9 +1199,10 @@ func (p *Prog) checkSetAlgebra(r *Reporter, st *types.Named) {
 							if isLoopCond {
 								continue
 							}
-							c, isCall := g.cond.(*ssa.Call)
-							if isCall && isCallTo(&c.Call, "datalog.Set.has") && rl.isElem(c.Call.Args[1]) && !g.val && (c.Call.Args[0] == acc || c.Call.Args[0] == ssa.Value(fn.Params[0])) {
-								continue // skipped only because the result (or the receiver it starts from) already holds it
+							if c, isCall := g.cond.(*ssa.Call); isCall && !g.val {
+								if mt, isM := p.memberTestOf(c); isM && rl.isElem(mt.elem) && (mt.coll == acc || mt.coll == ssa.Value(fn.Params[0]) || (mt.acc != nil && p.accMirrors(fn, mt.acc))) {
+									continue // skipped only because the result (or the receiver it starts from) already holds it
+								}
 							}
 							okGuards = false
 						}
@@ -1265,8 +1280,45 @@ func ruleEXSetIncl(p *Prog, r *Reporter) {
 			}
 		}
 	}
+	if outer != nil && inner == nil {
+		// the left set is consulted through a membership test (scan helper or index) per right element
+		var mtc *ssa.Call
+		for b := range outer.body {
+			for _, in := range b.Instrs {
+				if c, ok := in.(*ssa.Call); ok {
+					if mt, isM := p.memberTestOf(c); isM && mt.coll != nil && strings.HasPrefix(p.D(mt.coll), L+".(datalog.Set)") && outer.isElem(mt.elem) {
+						mtc = c
+					}
+				}
+			}
+		}
+		if mtc != nil {
+			r.OK(p.instrPos(mtc), name, "flag per right element", "membership in the left set is computed afresh for every right element")
+			okFalse, okTrue := false, false
+			for _, ret := range returnsOf(ev) {
+				if !isNilConst(retVal(ret, 1)) {
+					continue
+				}
+				d := p.D(retVal(ret, 0))
+				if d == "false:datalog.Bool" && outer.inside(ret.Block()) && hasGuard(ret.Block(), mtc, false) {
+					okFalse = true
+				}
+				if d == "true:datalog.Bool" && outer.inside(ret.Block()) {
+					okTrue = false
+					r.Bad(p.instrPos(ret), name, "all elements found", "true is returned from inside the loop over the right set")
+					return
+				}
+				if d == "true:datalog.Bool" && (outer.doneBB == ret.Block() || outer.doneBB.Dominates(ret.Block())) {
+					okTrue = true
+				}
+			}
+			r.Check(okFalse, p.instrPos(mtc), name, "missing element", "false as soon as a right element is not in the left set", "no 'return false' guarded by the failed membership test inside the loop over the right set")
+			r.Check(okTrue, p.instrPos(mtc), name, "all elements found", "true only after every right element was examined", "true is not returned exactly after the loop over all right elements")
+			return
+		}
+	}
 	if outer == nil || inner == nil {
-		r.Bad(p.Pos(ev.Pos()), name, "inclusion loops", "no full-range loop over the right set with a nested full-range loop over the left set")
+		r.Bad(p.Pos(ev.Pos()), name, "inclusion loops", "no full-range loop over the right set that looks every element up in the left set (nested full-range loop or membership test)")
 		return
 	}
 	// the found flag
@@ -1596,7 +1648,9 @@ func ruleEXSetAlg(p *Prog, r *Reporter) {
 		r.Dunno("?", "datalog.Set", "type", "not found")
 		return
 	}
-	isHas := func(c *ssa.Call) bool { return isCallTo(&c.Call, "datalog.Set.has") }
+	if mi := p.memberIdx(); mi != nil {
+		r.Check(mi.sound, p.Pos(mi.has.Pos()), "datalog."+mi.typ.Obj().Name(), "membership index", "the index answers exactly Set.has of the elements added to it (hashed kinds: "+strings.Join(mi.kinds, ", ")+"; the rest scanned)", "the membership index used by the set operations is not equivalent to a scan with Equal: "+mi.why)
+	}
 	// membership loops of fn: full-range loop over `seq` whose body tests has(other, element)
 	type incl struct {
 		rl    *rangeLoop
@@ -1608,8 +1662,10 @@ func ruleEXSetAlg(p *Prog, r *Reporter) {
 		for _, rl := range rangeLoops(fn) {
 			for b := range rl.body {
 				for _, in := range b.Instrs {
-					if c, ok := in.(*ssa.Call); ok && isHas(c) && len(c.Call.Args) == 2 && rl.isElem(c.Call.Args[1]) {
-						out = append(out, incl{rl, c.Call.Args[0], c})
+					if c, ok := in.(*ssa.Call); ok {
+						if mt, isM := p.memberTestOf(c); isM && mt.coll != nil && rl.isElem(mt.elem) {
+							out = append(out, incl{rl, mt.coll, c})
+						}
 					}
 				}
 			}
@@ -1683,7 +1739,15 @@ func ruleEXSetAlg(p *Prog, r *Reporter) {
 			}
 			okG := false
 			for _, g := range guardsOf(cv.Block()) {
-				if hc, isC := g.cond.(*ssa.Call); isC && isHas(hc) && !g.val && hc.Call.Args[0] == acc && sameValue(p, hc.Call.Args[1], elem) {
+				hc, isC := g.cond.(*ssa.Call)
+				if !isC || g.val {
+					continue
+				}
+				mt, isM := p.memberTestOf(hc)
+				if !isM || !sameValue(p, mt.elem, elem) {
+					continue
+				}
+				if mt.coll == acc || (mt.acc != nil && p.accMirrors(fn, mt.acc)) {
 					okG = true
 				}
 			}
@@ -1692,6 +1756,38 @@ func ruleEXSetAlg(p *Prog, r *Reporter) {
 		if n == 0 {
 			r.Bad(p.Pos(fn.Pos()), name, "result construction", "no append found")
 		}
+	}
+	// Len: the number of distinct elements
+	if fn := p.method(st, "Len"); fn != nil {
+		name := p.FuncName(fn)
+		recv := fn.Params[0]
+		ok, why := false, "the result is not the size of a duplicate-free copy of the receiver"
+		for _, ret := range returnsOf(fn) {
+			v := unwrap(retVal(ret, 0))
+			ok = false
+			if c, isC := v.(*ssa.Call); isC {
+				if bi, isB := c.Call.Value.(*ssa.Builtin); isB && bi.Name() == "len" {
+					if u, isU := unwrap(c.Call.Args[0]).(*ssa.Call); isU && len(u.Call.Args) == 2 {
+						switch {
+						case isCallTo(&u.Call, "datalog.Set.Union") && (u.Call.Args[0] == ssa.Value(recv) || u.Call.Args[1] == ssa.Value(recv)) && (isNilConst(u.Call.Args[0]) || isNilConst(u.Call.Args[1]) || u.Call.Args[0] == u.Call.Args[1]):
+							ok = true
+						case isCallTo(&u.Call, "datalog.Set.Intersect") && u.Call.Args[0] == ssa.Value(recv) && u.Call.Args[1] == ssa.Value(recv):
+							ok = true
+						}
+					}
+				}
+			}
+			if !ok {
+				// a counting loop: +1 exactly for the elements not met before (self-filled index)
+				if ph, isPhi := v.(*ssa.Phi); isPhi {
+					ok, why = p.countsDistinct(fn, recv, ph)
+				}
+			}
+			if !ok {
+				break
+			}
+		}
+		r.Check(ok, p.Pos(fn.Pos()), name, "distinct count", "the number of distinct elements (size of the duplicate-free union, or a count of first occurrences)", "Set.Len: "+why+": a set with a repeated element is longer than the set it denotes, or the count depends on the order of the representation")
 	}
 	// Length: not len() of the operand's representation
 	if ln := p.NamedType("datalog", "Length"); ln != nil {
@@ -1721,4 +1817,59 @@ func onlyFalseReturn(b *ssa.BasicBlock) bool {
 	}
 	k, ok := ret.Results[0].(*ssa.Const)
 	return ok && k.Value != nil && k.Value.String() == "false"
+}
+
+// countsDistinct: the returned counter starts at 0 and is incremented by one, in a full-range loop over recv,
+// exactly in the blocks that add the current element to a self-filled membership index under !index.has(element).
+func (p *Prog) countsDistinct(fn *ssa.Function, recv ssa.Value, res *ssa.Phi) (bool, string) {
+	mi := p.memberIdx()
+	if mi == nil || !mi.sound {
+		return false, "no checked membership index"
+	}
+	for _, rl := range rangeLoops(fn) {
+		if rl.seq != recv {
+			continue
+		}
+		nInc := 0
+		for b := range rl.body {
+			for _, in := range b.Instrs {
+				bo, ok := in.(*ssa.BinOp)
+				if !ok || bo.Op != token.ADD || shortType(bo.Type()) != "int" || bo == rl.step {
+					continue
+				}
+				if c, isC := constInt(bo.Y); !isC || c != 1 {
+					continue
+				}
+				if _, isPhi := bo.X.(*ssa.Phi); !isPhi {
+					continue
+				}
+				// the increment is paired with add(acc, elem) in its block and guarded by !has(acc, elem)
+				var add *ssa.Call
+				for _, in2 := range b.Instrs {
+					if c, isC := in2.(*ssa.Call); isC && c.Call.StaticCallee() == mi.add && rl.isElem(c.Call.Args[1]) {
+						add = c
+					}
+				}
+				if add == nil {
+					return false, "the counter is incremented without recording the element as met"
+				}
+				guarded := false
+				for _, g := range guardsOf(b) {
+					if hc, isC := g.cond.(*ssa.Call); isC && !g.val {
+						if mt, isM := p.memberTestOf(hc); isM && mt.acc != nil && mt.acc == unwrap(add.Call.Args[0]) && rl.isElem(mt.elem) {
+							guarded = true
+						}
+					}
+				}
+				if !guarded {
+					return false, "the counter is incremented for an element without testing that it was not met before"
+				}
+				nInc++
+			}
+		}
+		if nInc == 1 {
+			return true, ""
+		}
+	}
+	return false, "no full-range counting loop over the receiver"
 }
